@@ -120,6 +120,15 @@ theorem facts_write_round_order :
       ["amount = int64(len(b))", "amount-till-next-action", "write-through-buckets", "return-on-error",
        "offset += n", "total += n", "b = b[max:]", "action-check ActionNext && ByteOffset >= ByteOffset"] := by decide
 
+/-- Inside the closures of the two buckets (the connection's own and the one shared by the shape)
+exactly one slice of the buffer is handed to the wrapped connection, and the loop advances the
+buffer by that same bound: what is skipped is what was written.  (`Shape.stepLoop` delivers
+`b.take m` and continues with `b.drop m` for one `m = min (cap + 1) amount`, where the adversary's
+`cap + 1` stands for the smaller of the two buckets' remaining capacities — any value ≥ 1, so both
+capacities are quantified independently.) -/
+theorem facts_write_chunk_is_what_is_skipped :
+    writeChunk = ["write b[:max]", "advance b[max:]"] := by decide
+
 /-- The action block: validity is re-checked first; if the shapes were replaced, shaping is switched
 off and the (already advanced) rest goes through the default buckets; otherwise count check,
 decrement, the action itself, and the next action is the next *index* with a non-zero count. -/
